@@ -239,11 +239,12 @@ def gen_world_op(rng):
 
 
 def generate(cls, rng):
+    from dsim import depth as DP
     init = dict(clock=rng.choice(CLOCKS), tz=rng.choice(TZ_SETTINGS))
     if cls == "calls":
         ops = []
         last = None
-        for _ in range(rng.randrange(3, 30)):
+        for _ in range(rng.randrange(3, DP.pick(30, 90))):
             r = rng.random()
             if r < 0.2:
                 ops.append(gen_world_op(rng))
@@ -261,7 +262,7 @@ def generate(cls, rng):
         return dict(init=init, ops=ops, repeat_seed=rng.getrandbits(30))
     if cls == "stream":
         ops = []
-        for _ in range(rng.randrange(1, 8)):
+        for _ in range(rng.randrange(1, DP.pick(8, 20))):
             c = gen_call(rng)
             c[2] = ["faultystream", gen_text(rng),
                     dict(kind=rng.choice(["raise_at", "raise_at", "eof_at",
@@ -275,9 +276,9 @@ def generate(cls, rng):
     # threads
     shared_texts = [gen_call(rng) for _ in range(3)]
     threads = []
-    for _ in range(rng.choice([2, 2, 3])):
+    for _ in range(rng.choice(DP.pick([2, 2, 3], [3, 4, 4]))):
         prog = []
-        for _ in range(rng.randrange(1, 5)):
+        for _ in range(rng.randrange(1, DP.pick(5, 9))):
             c = _copy.deepcopy(rng.choice(shared_texts)) \
                 if rng.random() < 0.5 else gen_call(rng)
             if c[2][0] == "nontext" and rng.random() < 0.5:
